@@ -4,6 +4,7 @@ import (
 	"fmt"
 	"net"
 	"runtime"
+	"strings"
 	"sync"
 	"testing/synctest"
 
@@ -159,6 +160,15 @@ func runC15(c *rt.Ctx) {
 					streams = append(streams, []wire.Op{reps[i], reps[(i+3)%len(reps)]})
 				}
 				streams = append(streams, []wire.Op{{Kind: "quit"}}, []wire.Op{{Kind: "set", Key: "k", Val: "v"}, {Kind: "quit"}})
+				// multi-key gets that hit (several values have to be written back)
+				bin := proto == "binary"
+				big := string(wire.GenValue(5000, 3))
+				if !bin {
+					big = strings.Repeat("v", 5000)
+				}
+				streams = append(streams,
+					[]wire.Op{{Kind: "set", Key: "a", Val: "va"}, {Kind: "set", Key: "b", Val: "vb"}, {Kind: "mget", Keys: []string{"a", "b", "a"}, Quiet: []bool{bin, bin, false}}},
+					[]wire.Op{{Kind: "set", Key: "a", Val: big}, {Kind: "mget", Keys: []string{"a", "nope", "a", "a"}, Quiet: []bool{bin, bin, bin, false}}})
 				if proto == "binary" {
 					streams = append(streams, []wire.Op{{Kind: "quit", QuietW: true}})
 				}
@@ -179,6 +189,15 @@ func runC15(c *rt.Ctx) {
 						clause, detail := d.runDisconnect(proto, stream, cut, false)
 						c.Eval(1)
 						c.Trace(1)
+						if clause == "" && cut > 0 {
+							// the client is already gone when the server writes its reply
+							clause, detail = d.runDisconnectMode(proto, stream, cut, false, true)
+							c.Eval(1)
+							c.Trace(1)
+							if clause != "" {
+								clause += "/client-gone-before-reply"
+							}
+						}
 						if clause == "" {
 							// the same disconnect while a second client, accepted after this one,
 							// is connected: only this client's resources may be released
@@ -221,6 +240,12 @@ func runC15(c *rt.Ctx) {
 // runDisconnect connects, sends the first cut bytes, closes, and checks that everything held for
 // the connection is released; then a fresh client must be served normally.
 func (d *deployment) runDisconnect(proto string, stream []byte, cut int, overlap bool) (clause, detail string) {
+	return d.runDisconnectMode(proto, stream, cut, overlap, false)
+}
+
+// runDisconnectMode: gone=true makes the client disappear right after sending the prefix, before
+// the server has had a chance to write any reply (its writes then fail with EPIPE).
+func (d *deployment) runDisconnectMode(proto string, stream []byte, cut int, overlap, gone bool) (clause, detail string) {
 	synctest.Wait()
 	base := runtime.NumGoroutine()
 	d.mu.Lock()
@@ -238,7 +263,11 @@ func (d *deployment) runDisconnect(proto string, stream []byte, cut int, overlap
 		d.l.conns <- other
 		synctest.Wait()
 	}
-	if cut > 0 {
+	if cut > 0 && gone {
+		cli.GoAway()
+		cli.Feed(stream[:cut])
+		synctest.Wait()
+	} else if cut > 0 {
 		// two segments when possible so that the server has to resume a partial read
 		if cut > 3 {
 			cli.Feed(stream[:cut/2])
